@@ -61,6 +61,8 @@ RECIPES = {
     'mc_result_value': dict(name='value', cls='mc_result', self='mc_result'),
     'mc_result_variance': dict(name='variance', cls='mc_result', self='mc_result', allow_unsigned_wrap=True),
     'mc_result_error': dict(name='error', cls='mc_result', self='mc_result'),
+    # same function, sqrt emitted as the deterministic stub of stubs_cbfull.h (the callback job evaluates error() twice: code and ghost)
+    'mc_result_error_det': dict(name='error', cls='mc_result', self='mc_result', opts=dict(rename={'vp_sqrt': 'vp_sqrt_det'})),
     'mc_result_ctor5': dict(name='mc_result', cls='mc_result', self='mc_result', ctor=True, sel='(std::size_t, std::size_t, std::size_t, double, double)'),
     # T(calls - 1) wraps for calls == 0 (empty combination / N < 2): defined unsigned arithmetic, result multiplied by error^2
     'create_result': dict(name='create_result', allow_unsigned_wrap=True),
@@ -171,6 +173,25 @@ RECIPES.update({
     'mpi_callback_call': dict(unit='mpi', name='operator()', cls='mpi_callback', self='mpi_callback',
                               opts=dict(free_calls={'MPI_Comm_rank': _h_mpi_rank}, operator_calls={('callback', 'operator()'): _h_inner_callback},
                                         member_calls={('callback', 'mode'): (lambda em, n, obj, args, dst: ('vp_callback_set_mode(&(%s), %s)' % (obj, em.emit(args[0]))) if args else ('vp_callback_get_mode(&(%s))' % obj))})),
+})
+
+def _h_combine(em, n, args, dst):
+    # hep::accumulate<Accumulator>(begin, end) over results  ->  vp_combine_call(dst, &vec, lo, hi)
+    va, ia = em.iter_parts(args[0]); vb, ib = em.iter_parts(args[1])
+    return 'vp_combine_call(%s, &(%s), %s, %s)' % (dst, va, ia, ib)
+
+
+def _h_chi(em, n, args, dst):
+    va, ia = em.iter_parts(args[0]); vb, ib = em.iter_parts(args[1])
+    return 'vp_chi_square_call(&(%s), %s, %s)' % (va, ia, ib)
+
+
+RECIPES.update({
+    # unsigned wrap allowed: nnf = non_zero_calls - finite_calls is only printed
+    'callback_call': dict(unit='chkpt', name='operator()', cls='callback', self='callback', allow_unsigned_wrap=True,
+                          opts=dict(free_calls={'accumulate': _h_combine, 'chi_square_dof': _h_chi},
+                                    member_calls={('*', 'serialize'): (lambda em, n, obj, args, dst: 'vp_chkpt_serialize_call(&(%s), &(%s))' % (obj, em.emit(args[0])))},
+                                    rename={'vp_ofstream_ctor1': 'vp_ofstream_open', 'mc_result_error': 'mc_result_error_det'})),
 })
 
 # ---- fragments: single expressions inside the MPI drivers -----------------------------------
@@ -372,6 +393,14 @@ JOBS = [
          structs=[dict(prelude='stubs_mpi.h'), dict(cname='rng_vegas_chkpt', opaque=True), dict(cname='rng_chkpt_plain_result', opaque=True), dict(unit='mpi', cls='mpi_callback')],
          globals='size_t vp_inner_calls; _Bool vp_inner_ret; const void *vp_inner_arg; int vp_inner_mode_seen; int vp_rank;', props=['C04', 'C20'],
          trusted=['MPI_Comm_rank stores the rank; the wrapped hep::callback is a stub returning any decision (its decision logic: job callback_decision)']),
+    dict(name='callback_full', functions=['callback_call', 'chkpt_plain_result_results', 'mc_result_calls', 'mc_result_value', 'mc_result_error_det', 'mc_result_variance', 'mc_result_non_zero_calls', 'mc_result_finite_calls'],
+         specs=['callback_call'], entry='h_callback_call', enforce='callback_call', af=['callback_call', 'mc_result_value', 'mc_result_variance', 'mc_result_error_det'],
+         structs=[dict(cls='distribution_parameters', vec=True), dict(cls='mc_result', vec=True), dict(cls='distribution_result', vec=True), dict(cls='plain_result', vec=True),
+                  dict(prelude='rngvec.h'), dict(unit='chkpt', cls='chkpt', cls_targs=['hep::plain_result<double>'], cname='chkpt_plain_result'),
+                  dict(unit='chkpt', cls='chkpt_with_rng', cls_targs_has='plain_result', cname='rng_plain_chkpt'), dict(prelude='stubs_cbfull.h'), dict(unit='chkpt', cls='callback')],
+         preludes=['opaque.h'], globals='vp_ostream vp_cout; size_t vp_combine_calls, vp_combine_lo, vp_combine_hi, vp_file_opens, vp_file_writes, vp_summary_calls; const void *vp_file_arg, *vp_file_name, *vp_combine_vec; _Bool vp_g_decision; struct mc_result vp_combined;',
+         defines=['VP_NMAX=1048576'], props=['C20', 'C12', 'C03'],
+         trusted=['printing (operator<< on std::cout), std::ofstream, chkpt.serialize and multi_channel_summary are stubs with ghost logs: the text they produce is not modelled']),
     dict(name='refine_weights', functions=['multi_channel_refine_weights'], entry='h_multi_channel_refine_weights',
          enforce='multi_channel_refine_weights', replace=['vp_pow'], af=['multi_channel_refine_weights'], globals='T vp_g_s1, vp_g_s2; _Bool vp_g_nodata;',
          defines=['VP_NMAX=1048576'], props=['C08'], thorough_reals=['float'],
